@@ -88,10 +88,10 @@ theorem restrict_level (lvl : Nat) : ∀ (fs : List Field), ∀ f ∈ restrictFi
 /-- **an array without references is read back bit for bit**: writing a plain / sigma / time(-delta)
 array and reading the group allocates exactly the array that was written — same kind, shape and rows —
 whatever the read memo holds -/
-theorem readArr_writeArr (h : Heap) (file : File) (o : Nat) (ob : Obj) (p : Path) (wm : WMemo)
+theorem readArr_writeArr (h : Heap) (u : Option (List String)) (l : Nat) (file : File) (o : Nat) (ob : Obj) (p : Path) (wm : WMemo)
     (g : Grp) (wm' : WMemo) (fw fr : Nat) (s : RSt)
     (hob : h[o]? = some ob) (hk : attrName ob.kind = none)
-    (hw : writeArr h (fw + 1) o p wm = .ok (g, wm')) :
+    (hw : writeArr h u l (fw + 1) o p wm = .ok (g, wm')) :
     wm' = wm ∧ g.attrs.fieldname = p ∧
     ∃ s', readArr file (fr + 1) g s = .ok (s.heap.length, s') ∧ s'.heap = s.heap ++ [ob.strip] := by
   simp only [writeArr, hob, hk, Except.ok.injEq, Prod.mk.injEq] at hw
